@@ -8,7 +8,7 @@ from .crate import Crate, shard
 from .driver_value import render_module, render_main
 from .render_value import render_decl_only
 from . import value_layer as VL
-from .tlc import validate_trace
+from .tlc import validate_trace_chunks
 
 
 def build_and_run(name, decls, rows_of, features, deps, nshards=4, release=False):
@@ -58,16 +58,16 @@ def judge_trace(prop, verdict, name, decls, obs_paths, stats, want_eps=None):
         table.update(t)
         events.extend(e)
         index.extend(ix)
-    tdir = os.path.join(WORK, "trace", name)
-    tp, dp = VL.write_trace(tdir, table, events)
-    summary, bad, drift, r = validate_trace("Trace_Value", "Trace_Value.cfg", "trace_" + name, tp, dp)
+    summary, bad, drift, states = validate_trace_chunks("Trace_Value", "Trace_Value.cfg", "trace_" + name, events, table)
     stats["trace_events"] = stats.get("trace_events", 0) + summary["events"]
     stats["trace_pairs"] = stats.get("trace_pairs", 0) + summary["pairs"]
-    stats["trace_states"] = stats.get("trace_states", 0) + r.distinct
+    stats["trace_states"] = stats.get("trace_states", 0) + states
     stats.setdefault("nan_policy", {}).update({name: summary["pol"]})
+    if "CONFLICT" in summary["pol"].values():
+        verdict.violation({"property": prop, "summary": "inconsistent treatment of NaN against bound validators across declarations: %s" % summary["pol"], "family": "float", "nan_policy": summary["pol"]})
     verdict.drift += len(drift)
     for (l, i, obj) in bad:
-        did, ep, raw = index[l - 1]
+        did, ep, raw = index[l]
         inp, out = raw[i - 1]
         d = by_id[did]
         rec = {
@@ -82,6 +82,66 @@ def judge_trace(prop, verdict, name, decls, obs_paths, stats, want_eps=None):
         }
         verdict.violation(rec)
     for (l, i, obj) in drift[:5]:
-        did, ep, raw = index[l - 1]
+        did, ep, raw = index[l]
         verdict.notes.append("drift at %s %s: %s" % (did, ep, json.dumps(obj)[:300]))
     return summary
+
+
+# ------------------------------------------------------------------ slices
+
+def sample_decls(adecls, n, rng, must=None):
+    """seeded sample of the TLC-enumerated declarations; `must(ad)` marks ones always taken."""
+    if n is None or n >= len(adecls):
+        return list(adecls)
+    keep = [ad for ad in adecls if must and must(ad)]
+    rest = [ad for ad in adecls if not (must and must(ad))]
+    k = max(0, n - len(keep))
+    return keep + rng.sample(rest, min(k, len(rest)))
+
+
+def instantiate_slice(fam, adecls, rng, prefix, lifts=1):
+    """concrete declarations for the abstract ones: the native instantiation plus `lifts` twins."""
+    from .values import INT_TYPES, ARITH_INT
+    out = []
+    for i, ad in enumerate(adecls):
+        if fam == "int":
+            out.append(VL.instantiate_int(ad, ad["ty"], "%s%04d" % (prefix, i)))
+            signed = INT_TYPES[ad["ty"]][0] < 0
+            tys = [t for t in INT_TYPES if (INT_TYPES[t][0] < 0) == signed and t != ad["ty"]]
+            rng.shuffle(tys)
+            n = 0
+            for ty2 in tys:
+                if n >= lifts:
+                    break
+                if ty2 in ARITH_INT or VL.int_order_only(ad):
+                    out.append(VL.instantiate_int(ad, ty2, "%s%04d_%s" % (prefix, i, ty2)))
+                    n += 1
+        elif fam == "float":
+            out.append(VL.instantiate_float(ad, "f32", "%s%04d_f32" % (prefix, i)))
+            if lifts:
+                out.append(VL.instantiate_float(ad, "f64", "%s%04d_f64" % (prefix, i)))
+        else:
+            d = VL.instantiate_plain(ad, "%s%04d" % (prefix, i))
+            out.append(d)
+    return out
+
+
+def inputs_for(d, rng, nrandom):
+    if d["fam"] == "int":
+        return VL.int_inputs(d, rng, nrandom)
+    if d["fam"] == "float":
+        return VL.float_inputs(d, rng, nrandom)
+    if d["fam"] == "string":
+        return VL.string_inputs(d, rng, nrandom)
+    return VL.any_inputs(d, rng, nrandom)
+
+
+def rows_direct(d, rng, nrandom, eps=None, with_default=True):
+    ins = [VL.enc_value(d, v) for v in inputs_for(d, rng, nrandom)]
+    rows = []
+    for ep in VL.direct_eps(d):
+        if eps is None or ep in eps:
+            rows.append({"d": d["id"], "ep": ep, "ins": ins})
+    if with_default and "Default" in d["traits"] and d["dflt"] and (eps is None or "default" in eps):
+        rows.append({"d": d["id"], "ep": "default", "ins": [None]})
+    return rows
